@@ -28,7 +28,7 @@ ASSUMPTIONS = [
     'owner); unrecognisable callbacks are counted, not judged',
 ]
 REQUIRED = {'ops_judged': 3000, 'replacements': 1000, 'leaf_sets': 1000, 'detached_leaf_sets': 200, 'leak_checks': 2000, 'slot_sets': 300, 'falsy_object_cases': 100, 'on_init_builders': 60,
-            'equal_comparing_object_cases': 50, 'batched_subobject_updates': 300, 'batched_owner_updates': 200}
+            'equal_comparing_object_cases': 50, 'batched_subobject_updates': 300, 'batched_owner_updates': 200, 'snapshots_taken': 150, 'shared_subobject_ops': 150}
 
 _st = {}
 _n = [0]
@@ -93,8 +93,76 @@ PATHS = ['a.x', 'a.y', 'a.b.x', 'a.b.y', 'a.b.b.x', 'c.x', 'c.y', 'c.param', 'a.
          'a.b', 'a.b.b', 'a.param', 'a.b.param']       # (also the sub-object held by a sub-object as a value of its own)
 
 
+def shared_subobject_case(idx, rng, P, rep):
+    """One sub-object attached to several owners at once (instances of one class, or of classes that happen to use the same
+    method name): every owner's method follows it - once per change, whatever way the change is made."""
+    param = _st['param']
+    Node = _st['Node']
+    same_class = rng.random() < 0.5
+
+    def owner_class(i):
+        def refresh(self):
+            self.__dict__.setdefault('_log', []).append('refresh')
+        return type(f'Own{idx}_{i}', (param.Parameterized,),
+                    dict(a=param.Parameter(default=None), refresh=param.depends('a.x', 'a.b.y', watch=True)(refresh)))
+    K0 = owner_class(0)
+    classes = [K0 if same_class else owner_class(i) for i in range(rng.randint(2, 3))]
+    shared = Node(x=val(), y=val(), b=Node(x=val(), y=val()))
+    owners = [K(a=shared) for K in classes]
+    attached = [True] * len(owners)
+    desc = dict(kind='shared-subobject', owners=len(owners), same_class=same_class)
+    ops = []
+    for step in range(rng.randint(4, 10)):
+        for o in owners:
+            o.__dict__['_log'] = []
+        c = rng.random()
+        changed = True
+        if c < 0.2:
+            op = 'leaf'
+            shared.x = val()
+        elif c < 0.4:
+            op = 'update-leaf'
+            shared.param.update(x=val(), y=val())
+        elif c < 0.55:
+            op = 'batch-leaf'
+            with param.parameterized.batch_call_watchers(shared):
+                shared.x = val()
+                shared.y = val()
+        elif c < 0.7:
+            op = 'update-sub'
+            shared.param.update(b=Node(x=val(), y=val()), x=val())
+        elif c < 0.8:
+            op = 'deep-leaf'
+            shared.b.param.update(y=val(), x=val())
+        elif c < 0.9:
+            op = 'same-value'
+            shared.param.update(x=shared.x, y=val())      # (y is nobody's dependency)
+            changed = False
+        else:
+            i = rng.randrange(len(owners))
+            op = 'detach' if attached[i] else 'reattach'
+            owners[i].a = None if attached[i] else shared
+            attached[i] = not attached[i]
+            ops.append(op)
+            continue        # (an unresolved transition: not judged)
+        ops.append(op)
+        rep.count('shared_subobject_ops')
+        for i, o in enumerate(owners):
+            got = o.__dict__['_log'].count('refresh')
+            exp = 1 if (changed and attached[i]) else 0
+            if got != exp:
+                rep.violation('C07/shared-subobject/' + ('missing-call' if got < exp else 'extra-call'),
+                              f'{op} on a sub-object attached to {sum(attached)} of {len(owners)} owners: owner {i} '
+                              f'({"attached" if attached[i] else "detached"}) ran its method {got}x, expected {exp}', case=dict(desc, ops=ops))
+                rep.case(('shared', same_class, tuple(ops)), True)
+                return
+    rep.case(('shared', same_class, tuple(ops)), True)
+
+
 def run_case(idx, rng, P, rep):
     param = _st['param']
+    if rng.random() < 0.05:
+        return shared_subobject_case(idx, rng, P, rep)
     Node, Leaf = _st['Node'], _st['Leaf']
     falsy = rng.random() < 0.3
     if falsy:
@@ -421,6 +489,17 @@ def run_case(idx, rng, P, rep):
             trace.append((kind,))
             setattr(o2, pn, val())
             rep.count('detached_leaf_sets')
+        elif c < 0.95:
+            # a snapshot of the owner (or of an attached object) is taken: reading, as far as the original is concerned
+            import copy as _copy
+            tgt = top if rng.random() < 0.6 or not reachable() else rng.choice(reachable())
+            kind = 'snapshot:' + ('owner' if tgt is top else 'subobject')
+            trace.append((kind,))
+            log_before = list(top.__dict__['_log'])
+            dup = _copy.deepcopy(tgt)
+            top.__dict__['_log'] = log_before      # (set-up calls of the copy, if it shares the log list, are not the original's)
+            del dup
+            rep.count('snapshots_taken')
         else:
             kind = 'own:p'
             v = val()
